@@ -16,3 +16,6 @@ GenIdxProofs.vos GenIdxProofs.vok GenIdxProofs.required_vos: GenIdxProofs.v Util
 SigDefs.vo SigDefs.glob SigDefs.v.beautified SigDefs.required_vo: SigDefs.v GenIdx.vo
 SigDefs.vio: SigDefs.v GenIdx.vio
 SigDefs.vos SigDefs.vok SigDefs.required_vos: SigDefs.v GenIdx.vos
+SigInv.vo SigInv.glob SigInv.v.beautified SigInv.required_vo: SigInv.v Util.vo UtilProofs.vo GenIdx.vo GenIdxProofs.vo SigDefs.vo
+SigInv.vio: SigInv.v Util.vio UtilProofs.vio GenIdx.vio GenIdxProofs.vio SigDefs.vio
+SigInv.vos SigInv.vok SigInv.required_vos: SigInv.v Util.vos UtilProofs.vos GenIdx.vos GenIdxProofs.vos SigDefs.vos
